@@ -83,4 +83,20 @@ def chainStep {σ δ : Type} (L : Layout) (localStep : Nat → σ → LocalStep 
   | .absorbedIn _ _ => none
   | .escaped _ _ _ => none
 
+
+/-- the same chained traversal over an arbitrary neighbour table `nb i d` (`_subgrids[i]->get_neighbour(d)`):
+with the tables of `create_copies` the indices range over originals AND copies -/
+def chainStepN {σ δ : Type} (nb : Nat → Nat → Option Nat) (localStep : Nat → σ → LocalStep σ δ)
+    (enter : Nat → Nat → σ → σ) : ChainState σ → Option (Option (Nat × δ) × ChainState σ)
+  | .inGrid s st =>
+    match localStep s st with
+    | .move dep st' => some (some (s, dep), .inGrid s st')
+    | .absorbed dep st' => some (some (s, dep), .absorbedIn s st')
+    | .exit dep d st' =>
+      match nb s d with
+      | none => some (some (s, dep), .escaped s d st')
+      | some t => some (some (s, dep), .inGrid t (enter t (outToInDir d) st'))
+  | .absorbedIn _ _ => none
+  | .escaped _ _ _ => none
+
 end CMacVerif.Handover
